@@ -237,6 +237,84 @@ def run_search(cfg):
             out["failures"].append({"signature": "C04:segment block %s" % kind,
                                     "what": "DP segment operator is not the sub-block (%.3e)" % err,
                                     "data": {"support": sup, "err": err}})
+    # ---- nested grids: uniform (one and two levels) and barycentric refinement ---------------------------------
+    def locate(coarse, x):
+        """(element, barycentric coordinates) of the point x in the coarse grid."""
+        best = None
+        for e in range(coarse.number_of_elements):
+            v = [coarse.vertices[:, coarse.elements[k, e]] for k in range(3)]
+            a, b, r = v[1] - v[0], v[2] - v[0], x - v[0]
+            g11, g12, g22 = a @ a, a @ b, b @ b
+            det = g11 * g22 - g12 * g12
+            s1 = (g22 * (r @ a) - g12 * (r @ b)) / det
+            s2 = (g11 * (r @ b) - g12 * (r @ a)) / det
+            resid = np.linalg.norm(r - s1 * a - s2 * b)
+            lam = np.array([1 - s1 - s2, s1, s2])
+            score = resid + max(0.0, -lam.min())
+            if best is None or score < best[0]:
+                best = (score, e, lam)
+        return best
+
+    def prolongation_p1(coarse, fine, sc, sf):
+        p = np.zeros((sf.global_dof_count, sc.global_dof_count))
+        for e in range(fine.number_of_elements):
+            for k in range(3):
+                x = fine.vertices[:, fine.elements[k, e]]
+                score, ce, lam = locate(coarse, x)
+                assert score < 1e-9
+                row = sf.local2global[e, k]
+                p[row, :] = 0
+                for j in range(3):
+                    if abs(lam[j]) > 1e-12:
+                        p[row, sc.local2global[ce, j]] += lam[j]
+        return p
+
+    def prolongation_dp0(coarse, fine):
+        p = np.zeros((fine.number_of_elements, coarse.number_of_elements))
+        for e in range(fine.number_of_elements):
+            x = fine.vertices[:, fine.elements[:, e]].mean(axis=1)
+            score, ce, lam = locate(coarse, x)
+            p[e, ce] = 1.0
+        return p
+
+    coarse = C.make_grid("octa3", rng, True)
+    levels = [("refine", coarse.refine()), ("barycentric", coarse.barycentric_refinement)]
+    if strength != "quick":
+        levels.append(("refine2", coarse.refine().refine()))
+    C.set_orders(4, 4)
+    sc = C.make_space(coarse, "P1", {})
+    dc = C.make_space(coarse, "DP0", {})
+    for lname, fine in levels:
+        sf = C.make_space(fine, "P1", {})
+        df = C.make_space(fine, "DP0", {})
+        p1 = prolongation_p1(coarse, fine, sc, sf)
+        p0 = prolongation_dp0(coarse, fine)
+        for oname, mkop, pc, pf, pm in (
+                ("identity_P1", api.operators.boundary.sparse.identity, sc, sf, p1),
+                ("laplace_beltrami_P1", api.operators.boundary.sparse.laplace_beltrami, sc, sf, p1),
+                ("identity_DP0", api.operators.boundary.sparse.identity, dc, df, p0)):
+            a_c = np.asarray(mkop(pc, pc, pc).weak_form().to_sparse().todense())
+            a_f = np.asarray(mkop(pf, pf, pf).weak_form().to_sparse().todense())
+            err = float(np.abs(pm.T @ a_f @ pm - a_c).max()) / float(np.abs(a_c).max())
+            out["evaluations"] += 1
+            out["worst"]["nesting_%s_%s" % (lname, oname)] = err
+            if not err <= 1e-12:
+                out["failures"].append({"signature": "C04:nested grids %s %s" % (lname, oname),
+                                        "what": "P' A_fine P differs from A_coarse by %.3e (exactly integrated operator)" % err,
+                                        "data": {"level": lname, "op": oname, "err": err}})
+        if strength != "quick" and lname == "refine":
+            errs = []
+            for o in (2, 4, 6):
+                C.set_orders(o, o)
+                v_c = api.operators.boundary.laplace.single_layer(sc, sc, sc, assembler="dense").weak_form().to_dense()
+                v_f = api.operators.boundary.laplace.single_layer(sf, sf, sf, assembler="dense").weak_form().to_dense()
+                errs.append(float(np.abs(p1.T @ v_f @ p1 - v_c).max()) / float(np.abs(v_c).max()))
+            C.set_orders(4, 4)
+            out["evaluations"] += 1
+            out["worst"]["nesting_refine_single_layer_orders_2_4_6"] = errs
+            if not (errs[2] <= errs[0] and errs[2] <= 1e-3):
+                out["failures"].append({"signature": "C04:nested grids single layer does not converge under order refinement",
+                                        "what": "errors %s at orders 2,4,6" % errs, "data": {"errs": errs}})
     out["wall"] = time.time() - t0
     return out
 
